@@ -237,7 +237,7 @@ pub fn layers_of(nodes: &[Node]) -> (Vec<(u8, Vec<FilterD>)>, Vec<FilterD>) {
         match n {
             Node::L(id) => out.push((*id, path.iter().rev().cloned().collect())),
             Node::G(f) => {
-                assert!(top, "global filters only at chain level");
+                let _ = top;
                 globals.push(f.clone())
             }
             Node::F(inner, f) => {
